@@ -166,7 +166,8 @@ theorem rc_eval (hG : GoodAll ts) (n : Nat) (ih : ∀ m, m < n + 1 → RC ts k m
     | timeout => simp only [Prod.mk.injEq] at he; obtain ⟨rfl, rfl⟩ := he; exact absurd rfl hr
   | call f args =>
     simp only [GoodE, Bool.and_eq_true, bne_iff_ne, ne_eq] at hg
-    have hres := resolve_rel ts k hG hg.1 hR.funs hR.mod
+    simp only [Bool.or_eq_true, Bool.not_eq_true', decide_eq_true_eq] at hg
+    have hres := resolve_rel ts k hG hg.1.1 hR.funs hR.mod
     simp only [eval] at he
     cases hr1 : resolve (progOf ts k) l f with
     | none =>
@@ -182,7 +183,7 @@ theorem rc_eval (hG : GoodAll ts) (n : Nat) (ih : ∀ m, m < n + 1 → RC ts k m
       | none => simp [hr1, hr2, OptRel] at hres
       | some sf =>
         simp only [hr1, hr2, OptRel] at hres
-        obtain ⟨hfr, hmod, hkind⟩ := hres
+        obtain ⟨⟨hfr, hmod, hkind⟩, hblk⟩ := hres
         obtain ⟨hfok, hlexok⟩ := resolve_ok (codegen_cfg_ok ts k) hl hr1
         simp only [hr1] at he
         generalize hx : evalArgs (progOf ts k) n args l σ = x at he
@@ -194,8 +195,15 @@ theorem rc_eval (hG : GoodAll ts) (n : Nat) (ih : ∀ m, m < n + 1 → RC ts k m
           simp only at he
           obtain ⟨o1, hb1, p1, m1, e1⟩ := ga (by simp)
           have hσ1 := (ba (by simp)).ok
+          have hblock : sf.kind = .block → σ1.next = [] ∧ ∃ base, σ1.loops.map (·.index) = E.loops ++ base := by
+            intro hk
+            have hcef : ce = false := by
+              rcases hg.1.2 with h | h
+              · exact h
+              · exact absurd h (Nat.not_lt.mpr (hblk hk))
+            exact ⟨by rw [p1.2.2]; exact hce hcef, by rw [p1.2.1]; exact hR.loops⟩
           obtain ⟨o2, hb2, p2, m2, e2⟩ := A.invoke clo sf [] vs l σ1 E pend i (top ++ o1) rest r σ' hfr hmod
-            (fun h => absurd h hkind) (hR.of_post hb hb1 p1).toW (by rw [p1.2.2]; exact hN) hl hlexok hσ1 hb1 he hr
+            (fun h => absurd h hkind) hblock (hR.of_post hb hb1 p1).toW (by rw [p1.2.2]; exact hN) hl hlexok hσ1 hb1 he hr
           refine ⟨o1 ++ o2, by simp [hb2], p1.trans p2, max m1 m2 + 1, fun m hm => ?_⟩
           obtain ⟨m, rfl⟩ := Nat.exists_eq_add_of_le' (by omega : 1 ≤ m)
           have a1 := e1 m (by omega)
@@ -213,7 +221,8 @@ theorem rc_eval (hG : GoodAll ts) (n : Nat) (ih : ∀ m, m < n + 1 → RC ts k m
         | timeout => simp only [Prod.mk.injEq] at he; obtain ⟨rfl, rfl⟩ := he; exact absurd rfl hr
   | capture f args =>
     simp only [GoodE, Bool.and_eq_true, bne_iff_ne, ne_eq] at hg
-    have hres := resolve_rel ts k hG hg.1 hR.funs hR.mod
+    simp only [Bool.or_eq_true, Bool.not_eq_true', decide_eq_true_eq] at hg
+    have hres := resolve_rel ts k hG hg.1.1 hR.funs hR.mod
     simp only [eval] at he
     cases hr1 : resolve (progOf ts k) l f with
     | none =>
@@ -229,7 +238,7 @@ theorem rc_eval (hG : GoodAll ts) (n : Nat) (ih : ∀ m, m < n + 1 → RC ts k m
       | none => simp [hr1, hr2, OptRel] at hres
       | some sf =>
         simp only [hr1, hr2, OptRel] at hres
-        obtain ⟨hfr, hmod, hkind⟩ := hres
+        obtain ⟨⟨hfr, hmod, hkind⟩, hblk⟩ := hres
         obtain ⟨hfok, hlexok⟩ := resolve_ok (codegen_cfg_ok ts k) hl hr1
         simp only [hr1] at he
         generalize hx : evalArgs (progOf ts k) n args l σ = x at he
@@ -250,8 +259,16 @@ theorem rc_eval (hG : GoodAll ts) (n : Nat) (ih : ∀ m, m < n + 1 → RC ts k m
           have hR1 := hR.of_post hb hb1 p1
           have hR2 : RelW l { σ1 with bufs := (σ1.nextId, []) :: σ1.bufs, nextId := σ1.nextId + 1 }
               { E with nb := E.nb + 1 } := ⟨hR1.vars, by simp [hR1.nb], hR1.nf, hR1.funs⟩
-          obtain ⟨o2, hb2, p2, m2, e2⟩ := A.invoke clo sf [] vs l _ { E with nb := E.nb + 1 } pend σ1.nextId []
-            ((i, top ++ o1) :: rest) r3 σ3 hfr hmod (fun h => absurd h hkind) hR2 (by rw [p1.2.2]; exact hN) hl hlexok
+          have hblock : sf.kind = .block → σ1.next = [] ∧ ∃ base, σ1.loops.map (·.index) = E.loops ++ base := by
+            intro hk
+            have hcef : ce = false := by
+              rcases hg.1.2 with h | h
+              · exact h
+              · exact absurd h (Nat.not_lt.mpr (hblk hk))
+            exact ⟨by rw [p1.2.2]; exact hce hcef, by rw [p1.2.1]; exact hR.loops⟩
+          obtain ⟨o2, hb2, p2, m2, e2⟩ := A.invoke clo sf [] vs l
+            { σ1 with bufs := (σ1.nextId, []) :: σ1.bufs, nextId := σ1.nextId + 1 } { E with nb := E.nb + 1 } pend σ1.nextId []
+            ((i, top ++ o1) :: rest) r3 σ3 hfr hmod (fun h => absurd h hkind) hblock hR2 (by rw [p1.2.2]; exact hN) hl hlexok
             (hσ1.of_eq rfl rfl) (by simp [hb1]) hy hto
           simp only [hb2] at he
           have post : Post σ { σ3 with bufs := (i, top ++ o1) :: rest } := p1.trans p2
@@ -304,16 +321,16 @@ theorem rc_eval (hG : GoodAll ts) (n : Nat) (ih : ∀ m, m < n + 1 → RC ts k m
       -- the callable `name` of the layer, on both sides
       have hlk : (lookup name layer.funs = none ∧ lookup name sl = none) ∨
           ∃ fn sf, lookup name layer.funs = some fn ∧ lookup name sl = some sf ∧ FunRel fn sf ∧ sf.mod = layer.mod ∧
-            (sf.kind = .body → sl = (0, sf) :: Spec.callDefsOf sf.mod sf.body) := by
+            (sf.kind = .body → sl = (0, sf) :: Spec.callDefsOf sf.mod sf.body) ∧ sf.kind ≠ .block := by
         by_cases hname : name = 0
         · subst hname
           obtain ⟨sc0, bargs, body, h1, h2, h3, h4⟩ := layer_zero hL
-          exact .inr ⟨_, _, h1, h2, h3, rfl, fun _ => h4⟩
+          exact .inr ⟨_, _, h1, h2, h3, rfl, fun _ => h4, by simp⟩
         · have g := layer_ne hL name hname
           cases h1 : lookup name layer.funs <;> cases h2 : lookup name sl <;> simp only [h1, h2, OptRel] at g
           · exact .inl ⟨rfl, rfl⟩
-          · exact .inr ⟨_, _, rfl, rfl, g.1, g.2.1, fun hk => by rw [g.2.2] at hk; cases hk⟩
-      rcases hlk with ⟨hl1, hl2⟩ | ⟨fn, sf, hl1, hl2, hfr, hmod, hsl⟩
+          · exact .inr ⟨_, _, rfl, rfl, g.1, g.2.1, fun hk => (by rw [g.2.2] at hk; cases hk), (by rw [g.2.2]; simp)⟩
+      rcases hlk with ⟨hl1, hl2⟩ | ⟨fn, sf, hl1, hl2, hfr, hmod, hsl, hnb⟩
       · simp only [hl1, Prod.mk.injEq] at he; obtain ⟨rfl, rfl⟩ := he
         refine ⟨[], by simp [hb], Post.refl _, 1, fun m hm => ?_⟩
         obtain ⟨m, rfl⟩ := Nat.exists_eq_add_of_le' hm
@@ -339,7 +356,7 @@ theorem rc_eval (hG : GoodAll ts) (n : Nat) (ih : ∀ m, m < n + 1 → RC ts k m
             ⟨hR1.vars, hR1.nb, hR1.nf, (layer_clos_rel hL).append hR1.funs⟩
           have hn1 : σ1.next = [] := by rw [p1.2.2]; exact hnext
           obtain ⟨o2, hb2, p2, m2, e2⟩ := A.invoke ⟨fn, tl, layer.mod⟩ sf stl vs _ σ1 { E with defs := sl ++ E.defs } []
-            i (top ++ o1) rest r σ' hfr hmod.symm (fun hk => ⟨hT, hn1, E.defs, by rw [← hsl hk]⟩) hR2
+            i (top ++ o1) rest r σ' hfr hmod.symm (fun hk => ⟨hT, hn1, E.defs, by rw [← hsl hk]⟩) (fun hk => absurd hk hnb) hR2
             (by rw [hn1]; exact NSRel.nil) hl2' htl hσ1 hb1 he hr
           refine ⟨o1 ++ o2, by simp [hb2], p1.trans p2, max m1 m2 + 1, fun m hm => ?_⟩
           obtain ⟨m, rfl⟩ := Nat.exists_eq_add_of_le' (by omega : 1 ≤ m)
